@@ -4,3 +4,8 @@ From RM Require Import C13.Model.
 Open Scope Z_scope.
 Definition run_limits_json (data : bytes) : option (list bytes) :=
   match limits_json (@rev entry) data with Ret l => Some l | _ => None end.
+
+(* E cases: cert_subject of each module after folding the evil-json certificates (the HashMap iterated in
+   reverse order of the case, then sorted by the code) *)
+Definition run_certs (certs : list (bytes * list bytes)) (mods : list bytes) : list (option bytes) :=
+  map (cert_of bytes_eqb bytes_ltb (rev certs)) mods.
